@@ -154,7 +154,8 @@ EndCtl(c, i) ==
 Skip(i) ==      \* wontRun + addDoneProcess; onProcessSkipped follows in the epilogue
   /\ ctl.ipc[i] = "skip"
   /\ S' = ApplyAll(S, (IF ctl.done[i] THEN <<>> ELSE EndEvents(i, "Skipped", 1)) \o <<Ev("DoneReg", P(i), i)>>)
-  /\ ctl' = [EndCtl(ctl, i) EXCEPT !.ipc[i] = "epilogue.skipped", !.code[i] = 1]
+  \* an instance a stop request ended while it was pending was not skipped: no exit_on_skipped for it
+  /\ ctl' = [EndCtl(ctl, i) EXCEPT !.ipc[i] = IF ctl.done[i] THEN "epilogue.wg" ELSE "epilogue.skipped", !.code[i] = 1]
 
 (***************************************************************************)
 (* Process.run()                                                           *)
